@@ -637,7 +637,9 @@ pub fn error_span_case(rng: &mut Rng, ctx: &mut Ctx) {
                         if let Some((variant, payload)) = named {
                             // loose on purpose: the named piece, without reference delimiters, occurs inside the slice
                             let core = payload.trim_matches(|c| c == '&' || c == ';');
-                            if slice.contains(core) {
+                            let slice_core = slice.trim_matches(|c: char| c == '&' || c == ';' || c == '"' || c == '\'' || c.is_whitespace());
+                            // either way round: the message may be more or less detailed than the span
+                            if slice.contains(core) || (!slice_core.is_empty() && core.contains(slice_core)) {
                                 ctx.count(&format!("error_payload_in_span.{}", variant));
                             } else {
                                 ctx.violation(
